@@ -46,6 +46,15 @@ def replace(old, new, count=1):
     return run
 
 
+def replace_first(old, new):
+    """the first occurrence only (the form tools/eq_probe.py applies)"""
+    def run(src):
+        if src.count(old) < 1:
+            raise NotApplicable('text not found: %r' % (old[:40],))
+        return src.replace(old, new, 1)
+    return run
+
+
 def append_text(text):
     def run(src):
         return src + '\n' + text + '\n'
